@@ -61,6 +61,9 @@ class PROP(Prop):
         for o in seq:
             if o == "c":
                 R, W, req, drop = "-", "-", ("RHR", 1, 1), "-"
+                if disconnected:
+                    # whatever is asked of an inert client -- also what the encoder would refuse -- the answer is NotConnected
+                    req = rng.choice([("RHR", 1, 1), ("RHR", 1, 1), ("WMR", 0, [1] * 130), ("CU", 0x41, bytes(300)), ("WMC", 0, [True] * 2100), ("RSI",), ("RWMR", 1, 1, 2, [5] * 125)])
                 if not disconnected:
                     good = cligen.frame(proto, ncall, slave, b"\x03\x02\x00\x07").hex()
                     e = rng.choice(ENDS) if end == "mix" else end
